@@ -417,8 +417,10 @@ struct CppWorld : World {
         case 2: r = C.obj->set_key(key.data(), 0); C.key.assign(key.size(), 0); break; // zero length means the all-zero key
         case 3: { Bytes s = c_saved_key(C.alg, key); r = C.obj->set_key(s.data(), s.size()); C.key = key; break; }
         case 4: {
+            // aead.h: "the subclass may support other key sizes but this isn't guaranteed" - so the result for an
+            // undocumented length is not judged; only that the call is harmless and the object can be re-keyed
             bool rr = C.obj->set_key(key.data(), 7);
-            if (rr) viol(c, "set_key_rejects_bad_length", site, "set_key(key, 7) returned true");
+            if (c.record) c.run->probe(rr ? "keying.set_key_len7_accepted" : "keying.set_key_len7_rejected");
             // what the object holds now is undocumented: re-key validly before further use
             r = C.obj->set_key(key.data(), key.size());
             C.key = key;
